@@ -7,6 +7,7 @@
 -/
 import MpModel.Core
 import MpModel.Str
+import MpModel.StrIv
 
 open Mp
 
@@ -95,8 +96,17 @@ def showS (r : Except Err (List Char)) : String :=
   | .ok l => "S:" ++ String.ofList l
   | .error e => showErr e
 
+def showIv (r : Except IvErr (Mpf × Mpf)) : String :=
+  match r with
+  | .ok (a, b) => s!"P:{showMpf a},{showMpf b}"
+  | .error (.core e) => showErr e
+  | .error .assertion => "E:Other:AssertionError"
+
 def answer (toks : List String) : Option String :=
   match toks with
+  | ["mpi_from_str", l, p] => do pure (showIv (mpi_from_str (← parseStr l) (← parseInt p)))
+  | ["iv_convert_str_pair", a, b, p] => do
+    pure (showIv (iv_convert_str_pair (← parseStr a) (← parseStr b) (← parseInt p)))
   | ["float_ok", l] => do pure (if floatOK (← parseStr l) then "B:1" else "B:0")
   | ["py_int", l, lim] => do
     match pyInt (← parseStr l) (← lim.toNat?) with
